@@ -38,6 +38,7 @@ struct VtbbStats {
     uint64_t reduce_block_mode_calls = 0;
     uint64_t for_calls = 0, for_leaves = 0, parked_pushes = 0, merges = 0;
     uint64_t impure_bodies = 0;
+    uint64_t reduce_identity_leaf_calls = 0;   // calls in which some single-cell leaf started from the identity returns the identity although the whole range does not
 };
 inline VtbbStats &vtbb_stats() { static VtbbStats s; return s; }
 inline int &vtbb_max_cells() { static int m = 12; return m; }      // ranges longer than this are explored at block granularity
@@ -364,6 +365,7 @@ Value parallel_reduce(const Range &range, const Value &identity, const Func &bod
     // and again at the very end must return what it returned at the start; otherwise bodies share state and the
     // enumeration above is not a set of real executions (the harness then discards it and relies on direct execution)
     { ++S.reduce_body_runs; Value again = body(range, identity); if (!(again == sequential)) ++S.impure_bodies; }
+    if (C >= 2 && !(sequential == identity)) { for (std::size_t i = 0; i < C; ++i) { bool idl = false; for (const Value &x : E[i][i + 1]) if (x == identity) idl = true; if (idl) { ++S.reduce_identity_leaf_calls; break; } } }
     std::vector<Value> &out = E[0][C];
     if (out.size() > S.reduce_max_outcomes) S.reduce_max_outcomes = out.size();
     if (out.size() > 1) ++S.reduce_multi_outcome_calls;
